@@ -706,4 +706,4 @@ def r20n(F):
 	return out
 
 RULES.append(('20.n', 'listener adapters (the (T, U) pair, Deref, the block-sync wrappers) forward connections and disconnections to the same set of members (sibling methods cross-checked)', r20n))
-RULES.append(('20.N', 'arithmetic census: per reviewed function the number of operations per (group: add/sub, mul, div, rem, shift, bit, min, max, div_ceil ...; flavour: plain / checked / saturating / wrapping) is unchanged - a dropped or added `+ 1`, a rounding direction, saturating for checked, min for max (rules/arith.py; value arithmetic itself is not decided)', lambda F: arith.for_property(F, 'C20', '20.N')))
+RULES.append(('20.N', 'arithmetic census: per reviewed function the set of operation kinds (group: add/sub, mul, div, rem, shift, bit, min, max, div_ceil ...; flavour: plain / checked / saturating / wrapping) keeps its kinds: no reviewed function lost or gained a kind of arithmetic altogether - a rounding direction (`/` for div_ceil), saturating for checked, min for max (rules/arith.py; counts and value arithmetic itself are not judged)', lambda F: arith.for_property(F, 'C20', '20.N')))
